@@ -126,7 +126,8 @@ def run_mutant(m, tier='quick', runs=None, timeout=900):
         except subprocess.TimeoutExpired:
             return {'id': m['id'], 'status': 'timeout'}
         killed = p.returncode == 1 and 'VIOLATION property=%s' % m['property'] in p.stdout
-        detail = [l for l in p.stdout.splitlines() if l.startswith(('violation detail', 'HARNESS', 'KNOWN'))][:2]
+        detail = ([l for l in p.stdout.splitlines() if l.startswith('violation detail')] +
+                  [l for l in p.stdout.splitlines() if l.startswith('HARNESS')])[:2]
         return {'id': m['id'], 'status': 'killed' if killed else ('harness_error' if p.returncode == 2 else 'survived'),
                 'exit': p.returncode, 'detail': [x[:300] for x in detail], 'tail': p.stdout[-300:] if not killed else ''}
     finally:
